@@ -71,15 +71,19 @@ CHECKS = {
    technique="Coq proof over models of play(), timer and operation handlers + clock correspondence evaluated in Coq",
    design="7 C06"),
  "C07": dict(
-   text="Coq theorems over the hand-written executable model of component/entity.py, trait/impl.py and the 16 stateful classes of "
-        "component/common (Model/Comp.v): for every class, reducer, parameters, state and payload except StackableBuffSkillComponent.use, "
-        "a result containing a rejection is exactly [reject] and returns the input state (C07_reject_alone); the ignore_rejected variant is "
-        "silent; using a skill that is not ready is a no-op; the dispatcher never acknowledges a rejected action. StackableBuffSkillComponent.use "
-        "as shipped is refuted with a witness (open known finding) and its largest true part is proved. The model is compared in Coq with the "
-        "real reducers (full output state, event list, views) on random, reachable and shipped instances on every run.",
-   note="Trusted: Coq kernel/vm_compute; the correspondence harness (tools/lib/h_entity.py); tick-valued time; the 47 job-specific classes are "
-        "not modelled - the property is tested on every installed component of all jobs in reachable states (exploration, not proof).",
-   technique="Coq proof (case analysis over all modelled reducers) over a hand-written executable model + Coq-evaluated correspondence with the real reducers + implementation-side search on all installed components",
+   text="Coq theorems over the hand-written executable models of component/entity.py, trait/impl.py, the 16 stateful classes of "
+        "component/common (Model/Comp.v) and ALL 48 job-specific classes of component/specific (Model/SpecAdele.v, SpecMage.v, SpecMech.v; "
+        "every component class shipped is modelled): for every class, reducer, parameters, state and payload except StackableBuffSkillComponent.use, "
+        "a result containing a rejection is exactly [reject] and returns the input state, bound entities included (C07_reject_alone, "
+        "C07_adele/_mage/_mech_reject_alone); ignore_rejected variants are silent; using a skill that is not ready is a no-op; the dispatcher "
+        "never acknowledges a rejected action. StackableBuffSkillComponent.use as shipped is refuted with a witness (open known finding: a unit "
+        "test asserts the behaviour) and its largest true part is proved; three further defects found by this check in job-specific classes "
+        "(FlameSwipVI.use, the two FlareSlash triggers) were repaired and the models follow the repaired code. The models are compared in Coq "
+        "with the real reducers (full output state, event list, views) on random, reachable and shipped instances on every run.",
+   note="Trusted: Coq kernel/vm_compute; the correspondence harnesses (tools/lib/h_entity.py, ext_adele.py, ext_mage.py, ext_mech.py); tick-valued "
+        "time; pydantic deepcopy/validation and the dispatcher glue outside the model. In addition the property is tested on every installed "
+        "component of all jobs in reachable states (exploration, not proof).",
+   technique="Coq proof (case analysis over all modelled reducers of all 64 component classes) over hand-written executable models + Coq-evaluated correspondence with the real reducers + implementation-side search on all installed components",
    design="7 C07"),
  "C08": dict(
    text="Coq theorems: an ownership/effect checker `safe` over an effect-skeleton language is proved sound (a skeleton it accepts never "
@@ -96,23 +100,27 @@ CHECKS = {
    design="7 C08"),
  "C09": dict(
    text="Coq theorems: for every well-formed state and all a, b >= 0, elapse a then b equals elapse a+b for the Periodic scheduler, the "
-        "Consumable stack regeneration, the Keydown generator and the mob's DOT tracker (entity models faithful to component/entity.py and "
-        "common/mob.py), and for all 16 stateful common component classes (the hit-limited one under a proved reachable-state invariant): damage events are a permutation (same names, values, hits), "
-        "final states agree up to the dead interval counter of an expired schedule, hence all views agree; well-formedness is an invariant of "
-        "every reducer, so this holds in every reachable state; every elapsed notification carries the elapse time. Model compared in Coq "
-        "with the real code on every run.",
-   note="Trusted: as C07. Integer ticks (exactly representable times, as the property's own quantifier restricts). Not modelled: the "
-        "job-specific classes (two-execution comparison on the implementation only).",
-   technique="Coq proof (strong induction on the first chunk, invariants, permutation lemmas) over hand-written executable models + Coq-evaluated correspondence + implementation-side two-execution search",
+        "Consumable stack regeneration, the Keydown generator, LastingStack, the dynamic-interval scheduler and the mob's DOT tracker (entity "
+        "models faithful to component/entity.py and common/mob.py), for all 16 stateful common component classes (the hit-limited one under a "
+        "proved reachable-state invariant) and for every job-specific class with an elapse reducer (Model/SpecAdele.v, SpecMage.v, SpecMech.v) "
+        "except AdeleOrderComponent: damage events are a permutation (same names, values, hits, modifiers), final states agree up to the dead "
+        "interval counter of an expired schedule, hence all views agree; well-formedness is an invariant of every reducer, so this holds in "
+        "every reachable state; every elapsed notification carries the elapse time. AdeleOrderComponent.elapse is refuted with two witnesses "
+        "(open known finding; a candidate repair is proved chunk independent) and its true part is proved; FullMetalBarrage's penalty defect "
+        "found by this check was repaired (f0eb2ac) and is now inside the theorem. Models compared in Coq with the real code on every run.",
+   note="Trusted: as C07. Integer ticks (exactly representable times, as the property's own quantifier restricts). In addition a two-execution "
+        "comparison runs on every installed component of all jobs (exploration).",
+   technique="Coq proof (strong induction on the first chunk, invariants, permutation lemmas) over hand-written executable models of all component classes + Coq-evaluated correspondence + implementation-side two-execution search",
    design="7 C09"),
  "C10": dict(
-   text="Coq theorems over Model/Comp.v: validity never reports a negative remaining time; for every modelled class, "
-        "whenever validity reports the skill usable, use returns no rejection (all parameters, states), including key-down skills whose "
-        "validity mirrors use exactly (after the repair de960db of a genuine defect found by this check). Views of the "
-        "model are compared in Coq with the real view methods on every run; totality of the Python views is tested, not proved.",
+   text="Coq theorems over Model/Comp.v and the job-specific models (SpecAdele.v, SpecMage.v, SpecMech.v): validity never reports a negative "
+        "remaining time; for every modelled class (all 64 shipped component classes), whenever validity reports the skill usable, use returns no "
+        "rejection (all parameters, all states), including key-down skills whose validity mirrors use exactly (after the repair de960db of a "
+        "genuine defect found by this check). Views of the models are compared in Coq with the real view methods on every run; totality of "
+        "the Python views and well-formedness of the aggregated buff are tested on all jobs, not proved.",
    note="Trusted: as C07. 'Views never raise' and well-formedness of the aggregated buff are explored on all jobs (every view of every installed "
         "component in reachable states), not proved.",
-   technique="Coq proof over a hand-written executable model of views and use + Coq-evaluated correspondence + implementation-side search (validity vs use on every installed component)",
+   technique="Coq proof over hand-written executable models of views and use for all component classes + Coq-evaluated correspondence + implementation-side search (validity vs use on every installed component)",
    design="7 C10"),
  "C13": dict(
    text="19 Coq theorems: the two-pointer scan REGENERATED from report/feature.py on every run equals the exhaustive search (for each start the "
@@ -187,6 +195,35 @@ CHECKS = {
         "every history; file system atomicity and concurrent writers outside the model (partial).",
    technique="Coq proof (invariant over request histories) over a hand-written model + generated field-set obligations (translator) + Coq-evaluated hit-trace correspondence with the real memoizers",
    design="7 C20"),
+ "C02": dict(
+   text="11 Coq theorems for the part of the property that is logic, the rest explored (PARTIAL): (1) the router's route cache never changes an "
+        "answer - for every dispatcher list, every sequence of dispatches, every client and any earlier history, the caching RouterDispatcher "
+        "answers exactly like the cache-free one, re-entrant dispatch and raising dispatchers included (late install is shown stale by a "
+        "computed witness and is reachable from no path of simaple); (2) the engine is a function of its logs (C01); (3) obligations "
+        "REGENERATED from the source on every run and decided by vm_compute: no module of the simulation path imports or uses an entropy "
+        "source, the process-wide mutable bindings / memo decorators / mutable defaults are exactly the reviewed list, the spec repository "
+        "hands out copies. Thread interleavings, hash-seed dependence and library internals cannot be carried by a theorem: they are "
+        "explored by the isolation harness (same batch alone in fresh processes vs shuffled orders, 8 threads, other hash seeds, "
+        "round-robin engines, after mutating everything the API handed out; digests of every reviewed process-wide object).",
+   note="Trusted: Coq kernel/vm_compute; translator tools/tr_isolation.py; the router model is tied by Coq-evaluated correspondence with the "
+        "real RouterDispatcher (cache hits, call order, events, final cache). PARTIAL: CPython thread scheduling, PYTHONHASHSEED effects, "
+        "Lark/PyYAML/pydantic internals are explored, not proved.",
+   technique="Coq proof (cache-coherence invariant over dispatch histories) over a hand-written router model + generated isolation obligations (translator -> vm_compute) + Coq-evaluated correspondence + process/thread/hash-seed isolation search",
+   design="7 C02"),
+ "C16": dict(
+   text="20 Coq theorems over tables REGENERATED from data/jobs/resources/**/*.yaml and the patch code on every run: every damage-figure "
+        "formula is non-decreasing in its effective level on the documented range (finite sweep lifted by forallb_forall, or a proved "
+        "syntactic monotonicity checker when other variables occur) and defined there; textual level substitution = binding; the effective "
+        "level is monotone in each of its inputs and an explicit 0 is 0 (after the repair 8eda5ac); for every job, every scalar damage figure "
+        "and every stat-block field of every built component is monotone over the whole documented configuration space (raising any single "
+        "level is the special case); hexa/v improvement tables monotone; component names unique; a lower-tier skill is built iff its 6th-job "
+        "replacement has level 0. 'Building succeeds and any plan runs without raising' is totality of the Python stack: explored (boundary "
+        "grid of the seven level axes x 8 jobs, single-axis sweeps, random well-formed plans), not proved (PARTIAL).",
+   note="Trusted: Coq kernel/vm_compute; translators tools/tr_yaml.py, tr_core.py (validated per run: every formula evaluated in Coq and through "
+        "simaple's own patch chain at sampled levels; built component fields compared with the model's figure values); exact rationals vs "
+        "binary64 within 1e-9. cooldown/delay/duration fields are not damage figures and are not covered.",
+   technique="Coq proof (finite-range sweeps lifted by forallb_forall + proved monotonicity checker over Q) over tables generated from the YAML specs and patch code (translator) + Coq-evaluated correspondence with get_skill_components + configuration-grid search",
+   design="7 C16"),
 }
 
 NOT_APPLICABLE = {}
